@@ -223,7 +223,7 @@ def r5(ctx, prog):
 
 
 def run(ctx):
-    prog = extract(SCOPE)
+    prog = extract('ALL' if ctx.tier == 'thorough' else SCOPE)
     ctx.guard(r1, ctx, prog)
     ctx.guard(r2, ctx, prog)
     ctx.guard(r3, ctx, prog)
